@@ -6,6 +6,28 @@ pub mod object;
 
 // TODO: wip
 
+use std::io;
+use std::io::Read;
+
+// reads the bytes of one UTF-8 character: the first byte tells how many bytes the character has.
+// the bytes are not checked here, String::from_utf8 at the call site rejects a sequence that is not a character
+pub(crate) fn read_utf8_char(reader: &mut impl Read, char_buffer: &mut Vec<u8>) -> io::Result<()> {
+    let mut first_byte = [0];
+    reader.read_exact(&mut first_byte)?;
+
+    let number_of_bytes = match first_byte[0] {
+        0xC0..=0xDF => 2,
+        0xE0..=0xEF => 3,
+        0xF0..=0xF7 => 4,
+        _ => 1,
+    };
+
+    char_buffer.clear();
+    char_buffer.push(first_byte[0]);
+    char_buffer.resize(number_of_bytes, 0);
+    reader.read_exact(&mut char_buffer[1..])
+}
+
 pub struct JSONType {
     pub string: &'static str,
     pub boolean: &'static str,
